@@ -17,4 +17,22 @@ CHECKS = {
     },
 }
 
+CHECKS["C14"] = {
+    "text": "Decides a five-table agreement on every run (InjectCodeBlock fields = README keys = executor properties = info keys = "
+            "template loop variables), the C++/CMake region of every slot (brace/paren matcher on tag-blanked template text), that "
+            "slots are bare and unfiltered, that the jinja Environment has no text-altering option, ordered concatenation, and the "
+            "duplicate/conflict/unknown-field logic of process_metadata. Complete over the finite set of fields and templates.",
+    "note": "Trusted: jinja2 renders a bare {{x}} of a str unaltered with default Environment options; region names map to the "
+            "documented C++ places. Not decided: nothing is rendered, so a jinja2 bug or a C++ macro changing the meaning of a region is out of scope.",
+    "technique": "jinja2 parse-tree + brace-matched region classification + ast table agreement",
+}
+CHECKS["C15"] = {
+    "text": "Decides the guarded-emission shape of generate_script_block (control dependence of the single output writer on not-seen and "
+            "dependencies-subset-of-seen, seen.add in the same branch, progress-or-ValueError sweep, every copy's depends_on merged on every "
+            "path, conflict and missing-dependency raises before emission) and the wiring metadata -> executor -> template slot. These are "
+            "necessary conditions of the property; correctness of the ordering algorithm over every graph is not proved.",
+    "note": "Trusted: the emit-when-dependencies-seen scheme is correct given its guards. Not decided: algorithmic correctness for all graphs/arrival orders.",
+    "technique": "syntax-directed control dependence + structured path enumeration over ast; jinja2 parse tree for the slot",
+}
+
 NOT_APPLICABLE = {}
